@@ -51,7 +51,10 @@ class Probe:
             self.samples.append({'clause': clause, 'input': inp})
 
     def violation(self, key, clause, inp, observed, expected, call=None):
-        if len(self.violations) < 200:
+        # at most 8 recorded per key (all are counted), so that a frequent key — a known finding above all — cannot crowd out another
+        self._per_key = getattr(self, '_per_key', {})
+        self._per_key[key] = self._per_key.get(key, 0) + 1
+        if self._per_key[key] <= 8 and len(self.violations) < 400:
             self.violations.append({'key': key, 'clause': clause, 'input': inp, 'observed': observed,
                                     'expected': expected, 'call': call})
         self.stats.add('VIOLATION:' + clause)
